@@ -183,6 +183,16 @@ def oracle_step(live, op):
         return
     if o == "new":
         live[op["id"]] = ODb(op["kind"], op["level"], op["name"])
+    elif o == "from_array":
+        db = ODb(op["kind"], op["level"], op["name"])
+        db.bits = op["bits"]
+        db.keys = [k for k, _ in op["props"]]
+        for j, ent in enumerate(op["rows"]):
+            ent = sorted(ent, key=lambda p: p[0])
+            fp = {"kind": op["kind"], "bits": op["bits"], "level": op["level"], "idx": [c for c, _ in ent],
+                  "cnt": [] if op["kind"] == "bit" else [[c, v] for c, v in ent]}
+            db.rows.append({"fp": fp, "name": op["names"][j], "props": {k: vals[j] for k, vals in op["props"]}})
+        live[op["id"]] = db
     elif o == "add":
         db = live[op["id"]]
         if db.fault_in(op["fps"]) is None:
@@ -263,7 +273,8 @@ def gen_fpin(rng, kind, bits, level, keys, none_names=True):
 
 
 class HistGen:
-    def __init__(self, rng, faults=False, ops=None, maxlen=14, kinds=KINDS, none_names=True, save_ops=True):
+    def __init__(self, rng, faults=False, ops=None, maxlen=14, kinds=KINDS, none_names=True, save_ops=True, from_array=True):
+        self.from_array = from_array
         self.rng = rng
         self.faults = faults
         self.maxlen = maxlen
@@ -292,6 +303,21 @@ class HistGen:
         for _ in range(rng.randint(1, 2)):
             k = rng.choice(self.kinds)
             emit({"op": "new", "id": fresh(), "kind": k, "level": level, "name": rng.choice([None, "db", "T"])})
+        if self.from_array and rng.random() < 0.35:
+            # a database handed over as a CSR matrix whose rows are stored in arbitrary column order (legitimate CSR)
+            k = rng.choice(self.kinds)
+            # SciPy's binary operators on non-canonical CSR allocate per-column work arrays: keep unsorted rows narrow
+            # (db == db on an unsorted 2^32-column matrix asks for 32 GB)
+            b = bits if bits <= 1024 else 1024
+            fps = [gen_fpin(rng, k, b, level, keys, self.none_names) for _ in range(rng.randint(1, 4))]
+            rows = []
+            for f in fps:
+                ent = [[c, "1"] for c in f["fp"]["idx"]] if k == "bit" else [[c, v] for c, v in f["fp"]["cnt"]]
+                rng.shuffle(ent)
+                rows.append(ent)
+            emit({"op": "from_array", "id": fresh(), "kind": k, "level": level, "name": rng.choice([None, "arr"]), "bits": b,
+                  "rows": rows, "names": [f["name"] for f in fps],
+                  "props": [[kk, [dict(f["props"])[kk] for f in fps]] for kk in keys]})
         n = rng.randint(2, self.maxlen)
         for _ in range(n):
             i = rng.choice(sorted(live))
@@ -449,6 +475,19 @@ class ImplRun:
         if o == "new":
             L[op["id"]] = FingerprintDatabase(fp_type=CLS[op["kind"]], level=op["level"], name=op["name"])
             return {"ok": None}
+        if o == "from_array":
+            data, indices, indptr = [], [], [0]
+            for ent in op["rows"]:
+                for c, v in ent:
+                    indices.append(c)
+                    data.append(float(Fraction(v)))
+                indptr.append(len(indices))
+            arr = csr_matrix((np.array(data, dtype=DTYPE[op["kind"]]), np.array(indices, dtype=np.int64),
+                              np.array(indptr, dtype=np.int64)), shape=(len(op["rows"]), op["bits"]))
+            props = {k: col_array(k, vals) for k, vals in op["props"]}
+            L[op["id"]] = FingerprintDatabase.from_array(arr, list(op["names"]), fp_type=CLS[op["kind"]], level=op["level"],
+                                                         name=op["name"], props=props)
+            return {"ok": None}
         if o == "add":
             fps = [make_fpin(s) for s in op["fps"]]
             return attempt(lambda: L[op["id"]].add_fingerprints(fps))
@@ -510,6 +549,9 @@ def model_op(op):
     o = op["op"]
     if o == "new":
         return [{"op": "db.new", "id": op["id"], "kind": op["kind"], "level": op["level"], "name": op["name"]}]
+    if o == "from_array":
+        return [{"op": "db.from_array", "id": op["id"], "rows": op["rows"], "bits": op["bits"], "names": op["names"],
+                 "kind": op["kind"], "level": op["level"], "name": op["name"], "props": op["props"]}]
     if o == "add":
         return [{"op": "db.add", "id": op["id"], "fps": op["fps"]}]
     if o == "get_index":
